@@ -47,3 +47,28 @@ def emit(R):
                                                                                "getAlpha", "getBeta", "getNumDimensions", "getRule", "pow", "sqrt", "rate", "shift", "sqrt_b", "jacobian_diag", "runtime_error", "return", "double"], slack=12),
             "drops": ["the float instantiation of mapTransformedToCanonical / diffCanonicalTransform"]}
     return "\n".join(outs) + "\n", info
+
+
+def emit_chain_loops(R):
+    """The chain-rule scaling loops of TasmanianSparseGrid::differentiate and getDifferentiationWeights (block selectors)."""
+    text = X.strip_comments(X.read_source(CPP))
+    outs, fns = [], []
+    for nm, sig, hdr, rx in (
+        ("differentiate", r'void\s+TasmanianSparseGrid::differentiate\s*\(\s*const\s+double\s+x\[\]\s*,\s*double\s+jacobian\[\]\s*\)\s*const',
+         "void chain_differentiate(int num_dimensions, int num_outputs, double *jacobian, const double *jacobian_g_diag)",
+         r'for\s*\(\s*int\s+j\s*=\s*0[^)]*\)\s*for\s*\(\s*int\s+k\s*=\s*0[^)]*\)\s*jacobian\[[^;]*;'),
+        ("getDifferentiationWeights", r'void\s+TasmanianSparseGrid::getDifferentiationWeights\s*\(\s*const\s+double\s+x\[\]\s*,\s*double\s+weights\[\]\s*\)\s*const',
+         "void chain_weights(int num_dimensions, int num_points, double *weights, const double *jacobian_g_diag)",
+         r'for\s*\(\s*int\s+i\s*=\s*0[^)]*\)\s*for\s*\(\s*int\s+j\s*=\s*0[^)]*\)\s*weights\[[^;]*;')):
+        (p,) = X.cut(CPP, sig, text)
+        ms = list(re.finditer(rx, p.body))
+        if len(ms) != 1:
+            raise X.ExtractionBreak("%s: chain-rule scaling loop not found (%d matches)" % (nm, len(ms)))
+        b = ms[0].group(0)
+        b = R.sub("R13-fp-mul", r'=\s*(\w+\[[^\]]*\])\s*\*\s*(jacobian_g_diag\[[^\]]*\])\s*;', r'= tsg_fmul(\1, \2);', b)
+        X.check_leftover(b, nm)
+        line = p.line + (p.header + p.body[:ms[0].start()]).count('\n')
+        outs.append('#line %d "%s"\n%s{ %s }' % (line, X.REPO + "/" + p.rel, hdr, b))
+        fns.append({"name": "TasmanianSparseGrid::%s (chain-rule scaling loop)" % nm, "file": p.rel, "line": line, "loops": 2})
+    R.require({"R13-fp-mul": 2})
+    return "\n".join(outs) + "\n", {"functions": fns, "rules_fired": {k: v for k, v in R.counts.items() if v}}
